@@ -290,15 +290,16 @@ pub fn spec() -> Spec {
 
 fn tier_floors(spec: Spec, tier: Tier) -> Spec {
     let k = tier.pick(1, 15);
-    spec.floor("crash_points_swept", 150 * k)
-        .floor("commits_swept", 20 * k)
-        .floor("commits_swept:pruning_on", 6 * k)
-        .floor("commits_swept:pruning_off", 6 * k)
-        .floor("commits_swept_with_partition_reset", 4 * k)
-        .floor("commits_swept_with_deletes", 3 * k)
-        .floor("uninterrupted_runs_reopened", 8 * k)
+    spec.floor("crash_points_swept", 60 * k)
+        .floor("commits_swept", 12 * k)
+        .floor("commits_swept:pruning_on", 3 * k)
+        .floor("commits_swept:pruning_off", 3 * k)
+        .floor("commits_swept_with_partition_reset", 3 * k)
+        .floor("commits_swept_with_deletes", 2 * k)
+        .floor("uninterrupted_runs_reopened", 4 * k)
         // post-states are observable only after the batch write, i.e. at prune deletes
-        .floor("outcome:post", 20 * k)
+        .floor("outcome:post", 8 * k)
+        .floor("outcome:pre", 8 * k)
 }
 
 pub fn run(args: &Args) -> i32 {
